@@ -1032,6 +1032,214 @@ static void rrand_run(uint64_t idx)
 }
 VF_SUITE(pool_reinit_random, rrand_count, rrand_run)
 
+// ---- multi-zone growth of the C pool: pool_engage of a second / third / fourth zone on a pool that is empty, partly
+// used or still holding free blocks. Reference: capacity = sum of the engaged zones' cells, every block lies in one of
+// the engaged zones on a cell boundary of that zone, the free list is exactly {all cells} - {live cells}.
+enum
+{
+    MZ_GET,
+    MZ_PUT_NEWEST,
+    MZ_PUT_OLDEST,
+    MZ_ENGAGE1,
+    MZ_ENGAGE2,
+    MZ_ENGAGE3,
+    MZ_N
+};
+static const char *MZNAME[MZ_N] = {"get", "put(newest)", "put(oldest)", "engage(1 cell)", "engage(2 cells)", "engage(3 cells)"};
+struct MultiZone
+{
+    pool_head head;
+    size_t elemsz;
+    std::vector<std::unique_ptr<AlignedZone>> zones;
+    std::vector<size_t> zcells;
+    std::map<char *, uint32_t> live;
+    std::vector<char *> order;
+    uint32_t next_seed = 1;
+    size_t cap = 0;
+    std::string trace;
+    explicit MultiZone(size_t es) : elemsz(es)
+    {
+        pool_init(&head);
+        trace = "pool_init elemsz=" + std::to_string(es);
+        check("pool_init");
+    }
+    [[noreturn]] void bad(const char *clause, const char *fmt, ...) __attribute__((format(printf, 3, 4)))
+    {
+        char key[160], det[500];
+        snprintf(key, sizeof key, "pool:multizone:%s", clause);
+        va_list ap;
+        va_start(ap, fmt);
+        vsnprintf(det, sizeof det, fmt, ap);
+        va_end(ap);
+        vf::fail(key, "%s | elemsz=%zu zones=%zu capacity=%zu live=%zu | history: %s", det, elemsz, zones.size(), cap, live.size(), trace.c_str());
+    }
+    // which engaged zone holds p as a whole cell on a cell boundary? (-1: none)
+    int zone_of(const char *p) const
+    {
+        for (size_t z = 0; z < zones.size(); z++)
+        {
+            const char *b = zones[z]->p;
+            if (p >= b && p + elemsz <= b + zcells[z] * elemsz && (size_t)(p - b) % elemsz == 0)
+                return (int)z;
+        }
+        return -1;
+    }
+    void check(const char *when)
+    {
+        if (!freelist_ends(&head, cap + 64))
+            bad("free-list-does-not-end", "%s: more than %zu links without returning to the list head", when, cap + 64);
+        // the free list is exactly the set of cells that are not live
+        std::set<const char *> freecells;
+        for (const slist_head *it = head.free_blocks.next; it != &head.free_blocks; it = it->next)
+        {
+            const char *c = (const char *)it;
+            if (zone_of(c) < 0)
+                bad("free-node-outside-zones", "%s: free-list node %p is not a cell of an engaged zone", when, (const void *)c);
+            if (live.count((char *)c))
+                bad("live-block-on-freelist", "%s: a live block is on the free list", when);
+            if (!freecells.insert(c).second)
+                bad("free-node-twice", "%s: a cell is on the free list twice", when);
+        }
+        if (freecells.size() != cap - live.size())
+            bad("free-count", "%s: %zu cells on the free list, capacity-live=%zu (free blocks lost or invented)", when, freecells.size(), cap - live.size());
+        size_t a = pool_avail(&head);
+        if (a != cap - live.size())
+            bad("free-count", "%s: pool_avail()=%zu, capacity-live=%zu", when, a, cap - live.size());
+        VF_OK("pool multi-zone: free list == all engaged cells minus live ones, avail == sum of zones - live");
+        for (auto &kv : live)
+            for (size_t i = 0; i < elemsz; i++)
+                if ((uint8_t)kv.first[i] != pat(kv.second, i))
+                    bad("contents-changed", "%s: byte %zu of a live block changed", when, i);
+    }
+    void note(const char *w)
+    {
+        trace += ' ';
+        trace += w;
+        if (vf::verbose())
+            printf("  %s\n", w);
+    }
+    void get()
+    {
+        note("get");
+        char *p = (char *)pool_alloc(&head);
+        if (live.size() == cap)
+        {
+            if (p)
+                bad("more-than-capacity", "block #%zu handed out, the engaged zones hold %zu cells", live.size() + 1, cap);
+            VF_OK("pool multi-zone: exhausted pool answers null");
+        }
+        else
+        {
+            if (!p)
+                bad("null-before-capacity", "null after %zu of %zu blocks", live.size(), cap);
+            if (zone_of(p) < 0)
+                bad("outside-zones", "block %p is not a cell of any engaged zone", (void *)p);
+            if ((uintptr_t)p % alignof(void *))
+                bad("misaligned-for-link", "block %p", (void *)p);
+            if (live.count(p))
+                bad("overlap", "block handed out while live");
+            uint32_t sd = next_seed++;
+            for (size_t i = 0; i < elemsz; i++)
+                p[i] = (char)pat(sd, i);
+            live[p] = sd;
+            order.push_back(p);
+            VF_OK("pool multi-zone: block is a cell of one of the engaged zones, not live");
+        }
+        check("after get");
+    }
+    void put(bool newest)
+    {
+        if (order.empty())
+            return;
+        note(newest ? "put(newest)" : "put(oldest)");
+        size_t i = newest ? order.size() - 1 : 0;
+        char *p = order[i];
+        order.erase(order.begin() + i);
+        live.erase(p);
+        pool_free(&head, p);
+        check("after put");
+    }
+    void engage(size_t cells)
+    {
+        if (zones.size() >= 5)
+            return;
+        note(cells == 1 ? "engage(1)" : cells == 2 ? "engage(2)" : "engage(3)");
+        bool had_free = cap > live.size(), had_live = !live.empty();
+        zones.emplace_back(new AlignedZone(8, cells * elemsz));
+        zcells.push_back(cells);
+        cap += cells;
+        pool_engage(&head, zones.back()->p, cells * elemsz, elemsz);
+        check("after pool_engage of a further zone");
+        if (zones.size() > 1 && had_free)
+            VF_OK("pool multi-zone: engage while free blocks remain keeps them");
+        if (zones.size() > 1 && !had_free && had_live)
+            VF_OK("pool multi-zone: engage on an exhausted, partly used pool");
+        if (zones.size() > 1 && !had_live)
+            VF_OK("pool multi-zone: engage on a pool with no live block");
+    }
+    void op(int o)
+    {
+        if (o == MZ_GET)
+            get();
+        else if (o == MZ_PUT_NEWEST)
+            put(true);
+        else if (o == MZ_PUT_OLDEST)
+            put(false);
+        else
+            engage(1 + (o - MZ_ENGAGE1));
+    }
+    void finish()
+    {
+        while (live.size() < cap)
+            get();
+        get();
+        while (!order.empty())
+            put(order.size() & 1);
+        if (pool_avail(&head) != cap)
+            bad("free-count", "after freeing all: pool_avail()=%zu, capacity %zu", pool_avail(&head), cap);
+        VF_OK("pool multi-zone: exactly sum-of-zones blocks then null; after freeing all every cell is free");
+    }
+};
+static int mz_len() { return vf::thorough() ? 7 : 6; }
+static uint64_t mz_count() { return 3ull * MZ_N * MZ_N; }
+static void mz_run(uint64_t idx)
+{
+    static const size_t ES[3] = {8, 24, 40};
+    size_t es = ES[idx % 3];
+    int a = (idx / 3) % MZ_N, b = (idx / 3 / MZ_N) % MZ_N;
+    vf::cls("pool_head:multizone");
+    int rest = mz_len() - 2;
+    uint64_t total = 1;
+    for (int i = 0; i < rest; i++)
+        total *= MZ_N;
+    for (uint64_t h = 0; h < total; h++)
+    {
+        MultiZone t(es);
+        t.op(a);
+        t.op(b);
+        uint64_t x = h;
+        for (int i = 0; i < rest; i++, x /= MZ_N)
+            t.op((int)(x % MZ_N));
+        t.finish();
+        if (h == 4321 && idx == 40 && vf::want_sample())
+            vf::sample("pool multi-zone history: %s, then fill to capacity, null, free all", t.trace.c_str());
+    }
+    vf::count_bulk(total, total);
+    VF_OK("pool multi-zone: every short history over get/put/engage(1|2|3 cells), then fill and drain");
+    // one random long history per case
+    vf::Rng rg(vf::seed(), 0x9006, idx);
+    MultiZone t(es);
+    for (int step = 0; step < 200; step++)
+    {
+        int r = (int)rg.below(100);
+        t.op(r < 45 ? MZ_GET : r < 65 ? MZ_PUT_NEWEST : r < 85 ? MZ_PUT_OLDEST : MZ_ENGAGE1 + (int)rg.below(3));
+        if (t.trace.size() > 600)
+            t.trace.erase(0, t.trace.size() - 450);
+    }
+    t.finish();
+}
+VF_SUITE(pool_multizone, mz_count, mz_run)
+
 // ---- static_object_pool<T, N> with lifetime-tracking elements
 struct Small // sizeof == sizeof(slist_head)
 {
@@ -1340,6 +1548,11 @@ extern "C" void vf_setup()
           "static_object_pool family: object inside storage, aligned for T and for the link, disjoint over sizeof(T)",
           "static_object_pool family: exactly capacity objects, then null", "static_object_pool family: after destroying all, capacity objects can be created again",
           "pool: re-init of a used pool -> exactly the new zone's cells are free", "pool: after re-init exactly capacity blocks of the new zone, then null",
-          "pool: every short history over get/put/re-init (same zone, other zone, other geometry), then fill and drain"})
+          "pool: every short history over get/put/re-init (same zone, other zone, other geometry), then fill and drain",
+          "pool multi-zone: free list == all engaged cells minus live ones, avail == sum of zones - live", "pool multi-zone: exhausted pool answers null",
+          "pool multi-zone: block is a cell of one of the engaged zones, not live", "pool multi-zone: engage while free blocks remain keeps them",
+          "pool multi-zone: engage on an exhausted, partly used pool", "pool multi-zone: engage on a pool with no live block",
+          "pool multi-zone: exactly sum-of-zones blocks then null; after freeing all every cell is free",
+          "pool multi-zone: every short history over get/put/engage(1|2|3 cells), then fill and drain"})
         vf::require(c);
 }
